@@ -25,12 +25,24 @@ func init() {
 
 func c02Eval(c *Config, t TreeCase) string {
 	return safely(func() string {
+		atoms.ResetGuards()
 		m := BuildMsg(c, t.Hdr, t.Tree)
 		got, err := m.Serialize()
 		if err != nil {
 			return "Serialize failed: " + err.Error()
 		}
 		want := refcodec.EncodeMessage(t.Hdr, atoms.RefNodes(t.Tree))
+		if s := atoms.GuardsIntact(); s != "" {
+			return "Serialize: " + s
+		}
+		if hasGroup(t.Tree) {
+			// the other order of steps: grouped AVPs created first, members added afterwards
+			mt := BuildMsgTopDown(c, t.Hdr, t.Tree)
+			gt, err := mt.Serialize()
+			if err != nil || !bytes.Equal(gt, want) || int(mt.Header.MessageLength) != len(want) {
+				return fmt.Sprintf("grouped AVPs created with NewAVP around an empty group and filled afterwards: wire image differs from the reference encoding at byte %d (err %v, Header.MessageLength %d, reference %d bytes)", firstDiff(gt, want), err, mt.Header.MessageLength, len(want))
+			}
+		}
 		if int(m.Header.MessageLength) != len(got) {
 			return fmt.Sprintf("Header.MessageLength %d but %d bytes serialised", m.Header.MessageLength, len(got))
 		}
@@ -53,6 +65,9 @@ func c02Eval(c *Config, t TreeCase) string {
 		}
 		if wb, err := WireViaWriteTo(m); err != nil || !bytes.Equal(wb, want) {
 			return fmt.Sprintf("bytes written by WriteTo (after an unrelated write reused the serialisation buffer) differ from the reference encoding at byte %d (err %v)", firstDiff(wb, want), err)
+		}
+		if s := atoms.GuardsIntact(); s != "" {
+			return "SerializeTo / WriteTo: " + s
 		}
 		// symmetric direction: typed values read from the reference encoding
 		m2, err := diam.ReadMessage(bytes.NewReader(want), c.A.D.P)
